@@ -132,6 +132,7 @@ func readFindings() []finding {
 }
 
 type Report struct {
+	Anchors     map[string]interface{}
 	Prop        string
 	Tier        string
 	Obligations int
@@ -351,6 +352,7 @@ func (r *Report) writeEvidence(path string) error {
 			"samples":                  samples,
 			"canaries":                 r.Canaries,
 			"confirmed_by_second_solver": r.CrossOK,
+			"anchor_files": r.Anchors,
 		},
 		"assumptions": r.Assumptions,
 		"wall_s":      r.WallS,
